@@ -113,6 +113,13 @@ func listOf(l interface{}) ([][]int, vh.M) {
 			}
 			out = append(out, []int{int(o.OptionType), n})
 		}
+		pz := true
+		for _, b := range x.Padding {
+			if b != 0 {
+				pz = false
+			}
+		}
+		f = vh.M{"padzero": pz}
 	case *layers.IPv6:
 		if x.HopByHop != nil {
 			out = tlvList(x.HopByHop.Options)
@@ -185,6 +192,7 @@ func (f *feedback) SetTruncated() { f.trunc = true }
 
 type caseT struct {
 	src, name string
+	hex       string // the input a decoded layer came from (replay)
 	ls        []gopacket.SerializableLayer
 	payload   []byte
 	single    bool                  // decode as the layer's own type (else: a stack from Ethernet)
@@ -223,7 +231,7 @@ func roundTrip(tr *vh.Trace, sc int, c *caseT, st map[string]int) {
 	buf := &countBuf{SerializeBuffer: gopacket.NewSerializeBuffer()}
 	var err error
 	msg, site, pan := vh.Guard(func() { err = gopacket.SerializeLayers(buf, bothOpts, all...) })
-	ev := vh.M{"op": "ser", "sc": sc, "src": c.src, "name": c.name, "err": "", "n": 0, "d": "", "plen": len(c.payload),
+	ev := vh.M{"op": "ser", "sc": sc, "src": c.src, "name": c.name, "hex": c.hex, "err": "", "n": 0, "d": "", "plen": len(c.payload),
 		"pd": bdigest(c.payload), "lay": []vh.M{}}
 	if pan {
 		ev["err"] = "panic: " + short(msg) + " @ " + vh.SiteSig(corpus.Repo(), site)
@@ -457,7 +465,7 @@ func runC06(tr *vh.Trace, n int, seed uint64, shapesFile, stacksFile string, max
 		})
 		// a few cases beyond 64 KiB (IPv6 jumbograms, UDP with length 0) and at the 16-bit boundaries
 		big := func(name string, l gopacket.SerializableLayer, net gopacket.NetworkLayer, n int) {
-			if !mine() {
+			if noBig || !mine() {
 				return
 			}
 			sc++
@@ -513,7 +521,7 @@ func runC06(tr *vh.Trace, n int, seed uint64, shapesFile, stacksFile string, max
 			_ = names
 		})
 		// one jumbogram stack
-		if mine() {
+		if !noBig && mine() {
 			sc++
 			e := &layers.Ethernet{SrcMAC: mac(r), DstMAC: mac(r), EthernetType: layers.EthernetTypeIPv6}
 			i6 := genIPv6(r, 17, false, nil)
@@ -539,7 +547,7 @@ func runC06(tr *vh.Trace, n int, seed uint64, shapesFile, stacksFile string, max
 				continue
 			}
 			ls0 := p.Layers()
-			allL := r.Intn(4) == 0
+			allL := r.Intn(4) == 0 || replayIn != nil
 			taken := 0
 			for j, l0 := range ls0 {
 				if !serializable(l0) || taken >= 4 {
@@ -575,7 +583,7 @@ func runC06(tr *vh.Trace, n int, seed uint64, shapesFile, stacksFile string, max
 				net := nearestNet(p2.Layers(), j)
 				setNet(l, net)
 				sc++
-				roundTrip(tr, sc, &caseT{src: "fix", name: fmt.Sprintf("%s first=%s layer=%d", in.name, in.first, j),
+				roundTrip(tr, sc, &caseT{src: "fix", name: fmt.Sprintf("%s first=%s layer=%d", in.name, in.first, j), hex: hexOf(in.data),
 					ls: []gopacket.SerializableLayer{sl}, payload: append([]byte(nil), l.LayerPayload()...), single: true, net: net}, st)
 			}
 		}
